@@ -1008,6 +1008,59 @@ def d7b_expansion_kinds(chk: Check) -> None:
             chk.ok("C07-D7b", yc, t, text, "accepts every kind")
 
 
+def d3f_merge_references(chk: Check) -> None:
+    """A `<<: *anchor` entry is an alias in *value* position.  The block of
+    search_for_paths that reports such references (`parent[&anchor]`) runs
+    under the value-alias option alone; with the key-alias option it would
+    report, in the default mode, paths that no option asked for and that
+    resolve to the merged hash rather than to a matching value."""
+    prog = chk.prog
+    chk.rule("C07-D3f", "merge-key references are reported only under the "
+             "value-alias option (that flag alone)", floor=1)
+    fi = fn(prog, "search_for_paths")
+    data = fi.params()[2]
+    opts = {}
+    for a in walk_local(fi.node):
+        if isinstance(a, (ast.Assign, ast.AnnAssign)) and \
+                isinstance(a.value, ast.Call) and \
+                src(a.value.func).endswith(".pop") and a.value.args and \
+                isinstance(a.value.args[0], ast.Constant):
+            opts[str(a.value.args[0].value)] = src(
+                a.targets[0] if isinstance(a, ast.Assign) else a.target)
+    want = opts.get("include_value_aliases", "include_value_aliases")
+    n = 0
+    for loop in walk_local(fi.node):
+        if not isinstance(loop, ast.For):
+            continue
+        it = loop.iter
+        if isinstance(it, ast.Name):
+            from sa.coords import reaching_def
+            d = reaching_def(it.id, loop)
+            it_src = src(d) if d is not None else it.id
+        else:
+            it_src = src(it)
+        if "{}.merge".format(data) not in it_src:
+            continue
+        n += 1
+        conds = [f for f in facts_at(loop) if f.kind == "cond" and
+                 not (isinstance(f.expr, ast.Call) and
+                      src(f.expr.func) in ("isinstance", "hasattr"))]
+        text = "search_for_paths: for {} in {}".format(
+            src(loop.target), src(loop.iter))
+        if len(conds) == 1 and conds[0].pol and src(conds[0].expr) == want:
+            chk.ok("C07-D3f", fi, loop, text, "under `{}` alone".format(want))
+        else:
+            chk.fail("C07-D3f", fi, loop, text,
+                     "merge references are reported under {} instead of "
+                     "`{}` alone: in a mode that did not ask for value "
+                     "aliases the search prints `parent[&anchor]` paths"
+                     .format([repr(c) for c in conds] or "no condition",
+                             want))
+    if n == 0:
+        raise AnalysisError("merge-reference loop of search_for_paths not "
+                            "found")
+
+
 # ---------------------------------------------------------------- D4 ------
 def d4_once(chk: Check) -> None:
     prog = chk.prog
@@ -1095,4 +1148,7 @@ def run(chk: Check) -> None:
     d5_options(chk)
     d7_descent_kinds(chk)
     d7b_expansion_kinds(chk)
+    d3f_merge_references(chk)
+    from rules.shared import shared_dest_defaults_rule
+    shared_dest_defaults_rule(chk, "C07-D10", (PATHS,), 1)
     d4_once(chk)
